@@ -14,12 +14,24 @@ def ids_lock(F):
     """the mutex protecting the table of registration ids, by type: a `Mutex<..Option<SigId>..>` field of a signal-hook struct
     (lock identifiers are `<owner type>.<field>`)"""
     out = []
+    adts = {a["path"]: a for c, a in F.crate_items("adts")}
+
+    def holds_ids(ty, depth=0):
+        """does a value of this type hold registration ids — directly, or inside a private signal-hook wrapper (`SignalIdTable(Vec<Option<SigId>>)`)?"""
+        if "signal_hook_registry::SigId" in ty:
+            return True
+        base = re.sub(r"<.*$", "", ty)
+        a2 = adts.get(base)
+        if a2 is None or not base.startswith("signal_hook::") or depth > 3:
+            return False
+        return any(holds_ids(f2["ty"], depth + 1) for v2 in a2["variants"] for f2 in v2["fields"])
     for c, a in F.crate_items("adts"):
         if not a["path"].startswith("signal_hook::"):
             continue
         for v in a["variants"]:
             for f in v["fields"]:
-                if re.match(r"^std::sync::(poison::)?mutex::Mutex<.*core::option::Option<signal_hook_registry::SigId>.*>$", f["ty"]):
+                mm = re.match(r"^std::sync::(poison::)?mutex::Mutex<(.*)>$", f["ty"])
+                if mm and holds_ids(mm.group(2)):
                     out.append("%s.%s" % (a["path"], f["name"]))
     if len(out) != 1:
         raise AnchorLost("the mutex protecting the table of registration ids (Mutex<..Option<SigId>..> field): found %s" % out)
@@ -107,8 +119,7 @@ def rule_c(ctx):
                   "table* is dropped — the table is shared by all handle clones, so tying the clean-up to anything that dies earlier leaks later "
                   "additions; the table entry written by add_signal is the id returned by this instance's own registration", floor=4)
     # the owner of the id table: the workspace ADT with a Mutex<Vec<Option<SigId>>> field
-    owners = [a["path"] for c, a in F.crate_items("adts") for v in a["variants"] for f in v["fields"]
-              if re.search(r"Mutex<alloc::vec::Vec<core::option::Option<signal_hook_registry::SigId>>", f["ty"])]
+    owners = [ids_lock(F).rsplit(".", 1)[0]]
     if len(owners) != 1:
         raise AnchorLost("owner of the registered-ids table: %s" % owners)
     owner = owners[0]
